@@ -9,7 +9,7 @@ P("C06",
              "run-to-boundary; save (time + both queues in pop order + encoded world); load into a fresh simulation; run "
              "yields the same remaining trace, outcome and final state as the uninterrupted run, which is the concatenation "
              "(c06_restore_rebuilds_pop_order: re-pushing a pop-order snapshot re-assigns sequence numbers but reproduces the pop order; "
-             "c06_renumbering_bisimulation). c06_heap_queue_refines_canonical proves that the heap-backed queue of C01 (Lib/Engine, tied exactly to timing/eventqueue.go) refines the canonical sorted queue for every push/pop sequence, so the framework theorems hold of the real queue structure; c06_heap_engine_run_refines_abstract / _run_until_ lift this to whole runs of the heap engine (same handled events, outcome, related end states for every handler program) and c06_heap_engine_checkpoint_invisible states the property on the heap engine itself (RunUntil any boundary; drain both heaps in pop order; re-push into fresh heaps; Run = the uninterrupted continuation) for every engine reachable from NewSerialEngine by Schedule calls (c06_heap_engine_from_new_related). The abstract simulation (Lib/AbsSim) is tied exactly to timing.SerialEngine + "
+             "c06_renumbering_bisimulation). c06_heap_queue_refines_canonical proves that the heap-backed queue of C01 (Lib/Engine, tied exactly to timing/eventqueue.go) refines the canonical sorted queue for every push/pop sequence, so the framework theorems hold of the real queue structure; c06_heap_engine_run_refines_abstract / _run_until_ lift this to whole runs of the heap engine (same handled events, outcome, related end states for every handler program) and c06_heap_engine_checkpoint_invisible states the property on the heap engine itself (RunUntil any boundary; drain both heaps in pop order; re-push into fresh heaps; Run = the uninterrupted continuation) for every engine reachable from NewSerialEngine by Schedule calls (c06_heap_engine_from_new_related); c06_sorted_snapshot_is_pop_order: any strictly sorted permutation of the heap slice (what unsafeEventQueue.snapshot's sort.Slice returns) is that pop order. The abstract simulation (Lib/AbsSim) is tied exactly to timing.SerialEngine + "
              "simulation.SaveCheckpoint/LoadCheckpoint on scripted handler programs (full handled trace with event IDs, counters, ID counter). "
              "PARTIAL for library components: completeness of each component's State w.r.t. hidden Go fields is shown only by the "
              "differential (event-trace suffix incl. IDs + every entity's final payload equal) on ideal/banked memories, both cache "
